@@ -409,11 +409,31 @@ def clause_negzero_partitions(R):
                         bad.append(f"[n={n}, alignment {(9 + h) % 8}] a valid +0 at that place is rejected (control)")
                 elif some:
                     bad.append(f"[n={n}, {'last' if n == 2 else 'middle'} coefficient, bit alignment {(9 + h) % 8}] -0 (sign 1, magnitude 0) is accepted")
+    # -0 in every coefficient slot j = 2 .. 15 (after j coefficients of nine bits), as the last coefficient and followed by
+    # one more coefficient: a rejection that depends on the position in the buffer is reported
+    c9 = "0" + "0000001" + "1"
+    ctx.hooks["unroll"] = lambda fr, h: 24 if fr.inst is dec else 0
+    for j in range(2, 16):
+        for n in (j + 1, j + 2):
+            for sign, want_some in (("1", False), ("0", True)):
+                if want_some and n == j + 2:
+                    continue
+                st = St()
+                x = S.cell(st, "x", bytes_from_bits(S, st, c9 * j + sign + "0000000" + "1", extra_unknown_bytes=2 if n == j + 2 else 1))
+                outs = S.run(dec, [x, ctx.const_int(st, n, usz)], st)
+                nrun += 1
+                some = any(type(r) is En and 1 in r.vs for r, _ in outs)
+                if want_some:
+                    ctl += some
+                    if not some:
+                        bad.append(f"[n={n}, slot {j}] a valid +0 at that place is rejected (control)")
+                elif some:
+                    bad.append(f"[n={n}, slot {j} ({'last' if n == j + 1 else 'not last'})] -0 (sign 1, magnitude 0) is accepted")
     R.check(not bad, "C07-negzero", "decompress: negative-zero partitions (known-bits domain)",
             f"`Some` is unreachable whenever a coefficient is encoded as -0, at every bit alignment, last or not ({nrun} abstract runs, {ctl} +0 controls reach `Some`)",
             f"{len(bad)} partition(s): {bad[:3]}", key="negzero-partitions", data={"bad": bad[:10]})
-    R.floor("negative-zero partitions run", nrun, 32)
-    R.floor("+0 controls reaching Some", ctl, 16)
+    R.floor("negative-zero partitions run", nrun, 74)
+    R.floor("+0 controls reaching Some", ctl, 30)
     R.analysed.setdefault("unsupported", []).extend(S.unsupported[:5])
 
 
